@@ -51,7 +51,26 @@ def cases(tier, variants):
                             yield dict(part="e1", kind="nonconvex", fam=fam, n=n, box="box",
                                        start=start, var=v, maxcor=3, user="pure", sc=si,
                                        jac="callable", maxls=mls, maxfun=mf)
+    # stop letter: a target reached after a few iterations (the run leaves the loop right
+    # after evaluating the new iterate)
+    for c in F.convex_cases(2, variants, (3,), fams=("quart",), hesses=("rot2",)):
+        for j in (1, 2, 4):
+            yield dict(c, part="e1", user="pure", sc=0, jac="callable", tgt=j)
+    for v in variants:
+        for fam in ("rosenbrock", "styblinski_tang", "oscil"):
+            for j in (1, 3, 6):
+                for tc in (0, 1):
+                    yield dict(part="e1", kind="nonconvex", fam=fam, n=3, box="box", start="in",
+                               var=v, maxcor=3, user="pure", sc=0, jac="callable", tgt=j,
+                               tcall=tc)
     yield from E.env_cases(6, 2, variants)
+    # restart letter: the start handed to a restart differs from checkpoint.x in the last
+    # bit (rebuilt from normalised variables, round trip through a file): whatever the
+    # package does with it (the unchanged tree refuses), what it returns must be coherent
+    for b in H.base_runs(variants, maxcors=(3,), small=True):
+        for k in (1, 3):
+            for extra in (0, 1):
+                yield dict(b, part="pert", k=k, extra=extra)
     mcs = (2, 5) if tier == "quick" else (1, 2, 3, 5)
     for b in H.base_runs(variants, maxcors=mcs):
         for r in (1, 2, 3):
@@ -115,6 +134,26 @@ def run(case):
         return dict(viol=viol[:4], outcome=f"env|{res.message}",
                     nontrivial=core.case_hash(case) if res.nfev > res.nit + 1 else None)
     p = F.problem_of(case)
+    if part == "pert":
+        obs = F.Obs(p.f, p.g, p.lb, p.ub)
+        k = case["k"]
+        ck = H.solve(p, case, k, fun=obs.fun, jac=obs.jac)
+        if not H.stopped_by_maxiter(ck, k):
+            return dict(viol=[], outcome="parent_stopped_early", stats={"skipped": 1})
+        x1 = np.nextafter(np.asarray(ck.x, float), np.inf)
+        x1 = np.where(x1 > p.ub, np.nextafter(np.asarray(ck.x, float), -np.inf), x1)
+        try:
+            r = minimize_lbfgsb(x0=x1, fun=obs.fun, jac=obs.jac, bounds=p.bounds.copy(),
+                                maxcor=case["maxcor"], maxiter=k + case["extra"], ftol=0.0,
+                                gtol=1e-10, checkpoint=copy.deepcopy(ck))
+        except core.CaseTimeout:
+            raise
+        except Exception as e:
+            return dict(viol=[], outcome="pert|refused:" + type(e).__name__,
+                        nontrivial=core.case_hash(case))
+        for s_, d in coherent(r, obs, 1.0, "result", True):
+            viol.append(V(s_, **d))
+        return dict(viol=viol[:4], outcome="pert|accepted", nontrivial=core.case_hash(case))
     if part == "chain":
         obs = F.Obs(p.f, p.g, p.lb, p.ub)
         ck = None
@@ -166,6 +205,18 @@ def run(case):
     states = []
     kw = dict(maxcor=case["maxcor"], maxls=case.get("maxls", 20), maxfun=case.get("maxfun", 3000),
               maxiter=40, ftol=1e-13, gtol=1e-9)
+    if case.get("tgt"):
+        vals = []
+        try:
+            minimize_lbfgsb(x0=p.x0.copy(), fun=p.f, jac=p.g, bounds=p.bounds,
+                            callback=lambda x, st: vals.append(float(st.fun)) and False, **kw)
+        except Exception:
+            vals = []
+        j = case["tgt"]
+        if len(vals) <= j or not vals[j - 1] - vals[j] > 1e-9 * (1 + abs(vals[j])):
+            return dict(viol=[], outcome="no_target_slot", stats={"skipped": 1})
+        tval = 0.5 * (vals[j - 1] + vals[j])
+        kw["ftarget"] = (lambda: tval) if case.get("tcall") else tval
     try:
         res = minimize_lbfgsb(x0=p.x0.copy(), fun=obs.fun,
                               jac=obs.jac if jac == "callable" else jac, bounds=p.bounds,
